@@ -25,8 +25,10 @@ matching semantics *as a whole* are declined.  Decided (shape of the code and of
   R05.g  the joined list: created empty by the call, one element per part of pattern.split('/') -- the literal part
          itself, the segment of a binding glued (+=) to the element before it -- nothing else touches it; in strict mode it
          is joined whole, outside strict mode without its last element exactly when that is empty (followed by symbolic
-         evaluation per mode: ``x[:-1]`` views, pop() / del, copies under other names); the converter map is created
-         empty by the call, every binding is recorded, the duplicate test looks at every binding;
+         evaluation per mode: ``x[:-1]`` views, pop() / del, copies under other names); the list may be built in two stages
+         (the loop fills a list of fragment lists -- ``C.append([part])``, ``C[-1].append(segment)`` -- and the joined list is
+         ``[''.join(f) for f in C]``, built after the loop: the same clauses are read off the staging list); the converter
+         map is created empty by the call, every binding is recorded, the duplicate test looks at every binding;
   R05.i  the inherit_slashes option (which decides the mode a route is compiled for) is, wherever a function hands it on to another
          object's bind() / bind_all(), read from a declaration, never a literal that would silence the declaring object's own default;
   R05.h  match_path: the mapping a match returns holds, for every (name, converter) of self.converters, the converter applied
@@ -49,6 +51,7 @@ How the code is read (so that behaviour-preserving rewrites stay silent):
   * a local bound once to a plain copy of another local (``op = raw_op``, also what inlining a helper that returns
     ``(name, op, type_name)`` leaves behind) stands for what the other held *when the copy was taken*: the ':'
     normalisation and the default type must have been applied on every path to the copy;
+  * build_converter (and the class it may instantiate) is read in the module its definition lives in (route.py may import it back);
   * build_converter is read as a *model* (``_ConvModel``): which function runs for a multi / single binding and how it spells the
     converter, the optional flag and the captured text -- two closures, or an instance of a private callable class whose
     __init__ stores the flags once (the choice made in __init__ through an attribute bound to one of two methods, or at every
@@ -405,6 +408,11 @@ class _SymExec(object):
         if (isinstance(e, ast.List) and not e.elts) or (isinstance(e, ast.Call) and isinstance(e.func, ast.Name) and e.func.id == 'list' and
                                                        not e.args and not e.keywords and 'list' not in self.locals):
             return ('L', id(e), 0)
+        if isinstance(e, ast.ListComp) or (isinstance(e, ast.Call) and isinstance(e.func, ast.Name) and e.func.id == 'list' and 'list' not in self.locals and
+                                           len(e.args) == 1 and not e.keywords and
+                                           (isinstance(e.args[0], ast.GeneratorExp) or (isinstance(e.args[0], ast.Call) and norm(e.args[0].func) == 'map' and
+                                                                                      'map' not in self.locals))):
+            return ('L', id(e), 0)       # a list of its own, built in place (what it holds is not tracked here)
         if isinstance(e, ast.Subscript) and isinstance(e.slice, ast.Slice):
             v = self.ev(e.value, env)
             sl = e.slice
@@ -1340,8 +1348,9 @@ def _class_model(repo, route, bcv, bp):
     if not (isinstance(call, ast.Call) and isinstance(call.func, ast.Name)) or call.func.id in _all_params(bcv) or _stores(bcv.node, call.func.id):
         return None
     kind, kmod, K = repo.resolve(route, call.func.id)
-    if kind != 'class' or K.mod is not route:
+    if kind != 'class' or K.mod.external:
         return None
+    home, route = route, K.mod      # the class is read in the module it is defined in (build_converter's own, or one it is imported from)
     what = 'build_converter returns an instance of %s' % K.name
     if any(norm(b) != 'object' for b in K.node.bases) or K.node.keywords or K.node.decorator_list:
         raise AnalysisError('%s, a class with bases / a metaclass / decorators: its attribute lookup is not followed' % what)
@@ -1388,10 +1397,10 @@ def _class_model(repo, route, bcv, bp):
     # writes of attributes elsewhere in the module: a method of another class writing through its own ``self`` cannot reach
     # an instance of K; any other write of an attribute of the same name (through an alias, from a function) is not followed
     outside = []
-    for n in ast.walk(route.tree):
+    for m_, n in [(m_, n) for m_ in ([route] if home is route else [route, home]) for n in ast.walk(m_.tree)]:
         if isinstance(n, ast.Attribute) and isinstance(n.ctx, (ast.Store, ast.Del)) and not any(n is w[2] for w in writes):
-            fn = route.enclosing_function(n)
-            fi_ = route.func_of_node(fn) if fn is not None and not isinstance(fn, ast.Lambda) else None
+            fn = m_.enclosing_function(n)
+            fi_ = m_.func_of_node(fn) if fn is not None and not isinstance(fn, ast.Lambda) else None
             if fi_ is not None and fi_.cls is not None and fi_.cls is not K and fi_.params() and isinstance(n.value, ast.Name) and \
                     n.value.id == fi_.params()[0] and not _stores(fi_.node, n.value.id):
                 continue
@@ -1497,8 +1506,8 @@ def _class_model(repo, route, bcv, bp):
 
 def _rule_e_converters(rep):
     repo = rep.repo
-    route = repo.mod(ROUTE)
-    bcv = route.func('build_converter')
+    bcv = repo.mod(ROUTE).func('build_converter')
+    route = bcv.mod        # the module the definition lives in (route.py, or a module of the package route.py imports it back from)
     bp = bcv.params()
     if not bp or 'multi' not in bp or 'optional' not in bp:
         raise AnalysisError('build_converter: expected (converter, optional, multi)')
@@ -1526,9 +1535,9 @@ def _rule_e_converters(rep):
     ok2 = local_ok(mf) and len(convr) == 1 and convr[0].value is not None and _list_of_conversions(mf, M.outer, convr[0], v, conv)
     tag = (lambda what, arity: what) if mf is not sf else (lambda what, arity: '%s (%s arm)' % (what, arity))
     rep.check('R05.e', fkey(mf, tag('optional empty', 'multi')), ok1, "an absent optional multi binding yields [] before any conversion" if ok1 else
-              'the multi converter does not return [] for an empty optional value', route, mf.node)
+              'the multi converter does not return [] for an empty optional value', mf.mod, mf.node)
     rep.check('R05.e', fkey(mf, tag('list of conversions', 'multi')), ok2, "a multi binding yields [converter(v) for v in value.split('/')[1:]]" if ok2 else
-              "the multi converter is not [converter(v) for v in value.split('/')[1:]]", route, mf.node)
+              "the multi converter is not [converter(v) for v in value.split('/')[1:]]", mf.mod, mf.node)
     v, conv, opt = M.val(sf), M.conv(sf), M.opt(sf)
     nones = [r for r in arm(sf, False) if r.value is None or (isinstance(r.value, ast.Constant) and r.value.value is None)]
     ok1 = local_ok(sf) and len(nones) == 1 and _optional_empty(sf, nones[0], v, opt, M.flag)
@@ -1536,9 +1545,9 @@ def _rule_e_converters(rep):
     ok2 = local_ok(sf) and len(convr) == 1 and norm(_inline(sf, convr[0].value, outer=M.outer)) in (
         "%s(%s.replace('/', ''))" % (conv, v), "%s(%s.lstrip('/'))" % (conv, v), "%s(%s.strip('/'))" % (conv, v))
     rep.check('R05.e', fkey(sf, tag('optional empty', 'single')), ok1, 'an absent optional single binding yields None before any conversion' if ok1 else
-              'the single converter does not return None for an empty optional value', route, sf.node)
+              'the single converter does not return None for an empty optional value', sf.mod, sf.node)
     rep.check('R05.e', fkey(sf, tag('conversion', 'single')), ok2, 'a single binding is converted from its segment without the separator' if ok2 else
-              'the single converter does not strip the separator before converting', route, sf.node)
+              'the single converter does not strip the separator before converting', sf.mod, sf.node)
 
 
 def _group_of(R, e, depth=0):
@@ -1701,6 +1710,28 @@ def _rule_e_bindings(rep, R, convs, pats):
 
 # ---- R05.g ------------------------------------------------------------------------------------------
 
+def _flattened(e):
+    """Name of the list C when ``e`` builds, element for element, the concatenation of the fragments of every element of C:
+    ``[''.join(f) for f in C]``, ``list(''.join(f) for f in C)``, ``list(map(''.join, C))``; None otherwise."""
+    empty_join = lambda f: isinstance(f, ast.Attribute) and f.attr == 'join' and isinstance(f.value, ast.Constant) and f.value.value == ''
+    if isinstance(e, ast.Call) and isinstance(e.func, ast.Name) and e.func.id == 'list' and len(e.args) == 1 and not e.keywords:
+        a = e.args[0]
+        if isinstance(a, ast.GeneratorExp):
+            e = a
+        elif isinstance(a, ast.Call) and isinstance(a.func, ast.Name) and a.func.id == 'map' and len(a.args) == 2 and not a.keywords and \
+                empty_join(a.args[0]) and isinstance(a.args[1], ast.Name):
+            return a.args[1].id
+        else:
+            return None
+    if isinstance(e, (ast.ListComp, ast.GeneratorExp)) and len(e.generators) == 1:
+        g = e.generators[0]
+        if not g.ifs and not g.is_async and isinstance(g.target, ast.Name) and isinstance(g.iter, ast.Name) and isinstance(e.elt, ast.Call) and \
+                empty_join(e.elt.func) and len(e.elt.args) == 1 and not e.elt.keywords and isinstance(e.elt.args[0], ast.Name) and \
+                e.elt.args[0].id == g.target.id and g.iter.id != g.target.id:
+            return g.iter.id
+    return None
+
+
 def _rule_g_segments(rep, R):
     """The list handed to ``sep.join`` holds, in order, one element per literal part of the pattern -- the part itself -- with
     the segment of every binding glued to the element before it; outside strict mode a trailing empty element (pattern
@@ -1719,7 +1750,7 @@ def _rule_g_segments(rep, R):
     if not joins:
         raise AnalysisError('_compile_path_pattern: the join of the processed segments was not found')
     names, todo = set(), [(c.args[0].value if isinstance(c.args[0], ast.Subscript) else c.args[0]).id for c in joins]
-    inits, foreign = [], []
+    inits, foreign, stage = [], [], []
     while todo:
         n = todo.pop()
         if n in names:
@@ -1732,12 +1763,28 @@ def _rule_g_segments(rep, R):
             base = val.value if isinstance(val, ast.Subscript) and isinstance(val.slice, ast.Slice) else val
             if val is not None and _is_empty_display(val, 'list'):
                 inits.append(st)
+            elif val is not None and _flattened(val) is not None:
+                stage.append((st, _flattened(val)))
             elif isinstance(base, ast.Name):
                 todo.append(base.id)
             else:
                 foreign.append(n)
+    # staged construction: the loop fills a list C of fragment lists -- [part] for a literal part, the segment of a binding appended
+    # to the last of them -- and the joined list is built from it after the loop, each element the concatenation of its fragments
+    # (element for element what ``L.append(part)`` / ``L[-1] += segment`` build)
+    staged, C = bool(stage), None
+    if staged:
+        C = stage[0][1]
+        cdefs = _defs(cp, C) if C not in params and C not in names and _stores(cp.node, C) == 1 else []
+        if len(stage) != 1 or inits or len(cdefs) != 1 or cdefs[0][1] is None or not _is_empty_display(cdefs[0][1], 'list'):
+            foreign.append(C)
+        else:
+            inits = [cdefs[0][0]]
     fresh = not foreign and len(inits) == 1 and id(inits[0]) not in in_loop and \
         ccfg.must_pass(ccfg.nodes_of(inits[0]), ccfg.entry, ccfg.nodes_of(R.loop))
+    if fresh and staged:
+        # ... from what the loop has filled in: the list is built after the loop, on every path to it
+        fresh = id(stage[0][0]) not in in_loop and ccfg.must_pass(ccfg.nodes_of(R.loop), ccfg.entry, ccfg.nodes_of(stage[0][0]))
     rep.check('R05.g', fkey(cp, 'segment list created per call'), fresh, 'the list of processed segments starts empty in every call' if fresh else
               'the list of processed segments is not an empty list created by this call before the loop (%s): segments of earlier patterns / '
               'other content end up in the expression' % (', '.join(sorted(set(foreign))) or 'no single empty-list initialisation'), route, inits[0] if inits else cp.node)
@@ -1749,21 +1796,29 @@ def _rule_g_segments(rep, R):
     # -- every use of the list
     is_L = lambda e: isinstance(e, ast.Name) and e.id in names
     is_last = lambda e: isinstance(e, ast.Subscript) and is_L(e.value) and _is_minus_one(e.slice)
-    appends, glues, trims, others = [], [], [], []
+    is_C = lambda e: staged and isinstance(e, ast.Name) and e.id == C
+    is_lastC = lambda e: isinstance(e, ast.Subscript) and is_C(e.value) and _is_minus_one(e.slice)
+    method_call = lambda st, attr: isinstance(st, ast.Expr) and isinstance(st.value, ast.Call) and isinstance(st.value.func, ast.Attribute) and \
+        st.value.func.attr == attr and len(st.value.args) == 1 and not st.value.keywords and not isinstance(st.value.args[0], ast.Starred)
+    appends, glues, trims, others = [], [], [], []        # appends, glues: (statement, the value that enters the list)
     for st in stmts_of(cp.node):
         if isinstance(st, (ast.For, ast.AsyncFor, ast.While, ast.If, ast.Try, ast.With, ast.AsyncWith, ast.FunctionDef, ast.ClassDef)):
             continue
-        uses = [x for x in ast.walk(st) if is_L(x)]
-        if not uses or st in inits:
+        uses = [x for x in ast.walk(st) if is_L(x) or is_C(x)]
+        if not uses or st in inits or (staged and st is stage[0][0]):
             continue
-        if isinstance(st, ast.Expr) and isinstance(st.value, ast.Call) and isinstance(st.value.func, ast.Attribute) and is_L(st.value.func.value) and \
-                st.value.func.attr == 'append' and len(st.value.args) == 1 and not st.value.keywords and len(uses) == 1:
-            appends.append(st)
-        elif isinstance(st, ast.AugAssign) and isinstance(st.op, ast.Add) and is_last(st.target) and len(uses) == 1:
+        if not staged and method_call(st, 'append') and is_L(st.value.func.value) and len(uses) == 1:
+            appends.append((st, st.value.args[0]))
+        elif not staged and isinstance(st, ast.AugAssign) and isinstance(st.op, ast.Add) and is_last(st.target) and len(uses) == 1:
             glues.append((st, st.value))
-        elif isinstance(st, ast.Assign) and len(st.targets) == 1 and is_last(st.targets[0]) and isinstance(st.value, ast.BinOp) and isinstance(st.value.op, ast.Add) and \
-                is_last(st.value.left) and norm(st.value.left) == norm(st.targets[0]) and len(uses) == 2:
+        elif not staged and isinstance(st, ast.Assign) and len(st.targets) == 1 and is_last(st.targets[0]) and isinstance(st.value, ast.BinOp) and \
+                isinstance(st.value.op, ast.Add) and is_last(st.value.left) and norm(st.value.left) == norm(st.targets[0]) and len(uses) == 2:
             glues.append((st, st.value.right))
+        elif staged and method_call(st, 'append') and is_C(st.value.func.value) and len(uses) == 1 and isinstance(st.value.args[0], ast.List) and \
+                len(st.value.args[0].elts) == 1 and not isinstance(st.value.args[0].elts[0], ast.Starred):
+            appends.append((st, st.value.args[0].elts[0]))        # C.append([part]): a new element whose only fragment is the part
+        elif staged and method_call(st, 'append') and is_lastC(st.value.func.value) and len(uses) == 1:
+            glues.append((st, st.value.args[0]))                  # C[-1].append(segment): one more fragment of the last element
         elif _drops_last(st) in names and len(uses) == 1:
             trims.append(st)
         else:
@@ -1797,10 +1852,10 @@ def _rule_g_segments(rep, R):
     for st in stmts_of(cp.node):
         if isinstance(st, (ast.If, ast.While)):
             for x in ast.walk(st.test):
-                if is_L(x) and not is_last(route.parents.get(x)):
+                if (is_L(x) and not is_last(route.parents.get(x))) or is_C(x):
                     others.append(st)
         elif isinstance(st, (ast.For, ast.AsyncFor)):
-            if any(is_L(x) for x in ast.walk(st.iter)) or any(is_L(x) for x in ast.walk(st.target)):
+            if any(is_L(x) or is_C(x) for x in ast.walk(st.iter)) or any(is_L(x) or is_C(x) for x in ast.walk(st.target)):
                 others.append(st)
     ok = not others
     rep.check('R05.g', fkey(cp, 'segment list only appended to / glued / trimmed'), ok, 'nothing else changes the list of processed segments' if ok else
@@ -1811,12 +1866,12 @@ def _rule_g_segments(rep, R):
     # read through the local that names it
     loop_facts = lambda st: [(t, pol) for t, pol in conds(cp, st) if id(t) in in_loop]
     facts = lambda st: [(_inline(cp, t, stable=(part,)), pol) for t, pol in loop_facts(st)]
-    lit = [a for a in appends if id(a) in in_loop]
-    ok = len(lit) == 1 and len(appends) == 1 and norm(_inline(cp, lit[0].value.args[0], stable=(part,))) == part and implies_absent(facts(lit[0]), mtext) and \
+    lit = [a for a, v in appends if id(a) in in_loop]
+    ok = len(lit) == 1 and len(appends) == 1 and norm(_inline(cp, appends[0][1], stable=(part,))) == part and implies_absent(facts(lit[0]), mtext) and \
         all(implies_absent([f], mtext) or (isinstance(f[0], ast.BoolOp)) for f in facts(lit[0]))
     rep.check('R05.g', fkey(cp, 'literal part kept verbatim'), ok, 'a part that is not a binding enters the expression as it is' if ok else
               'a literal part of the pattern does not enter the list of segments unchanged and unconditionally (%s)' %
-              (short(appends[0], 60) if appends else 'no append found'), route, appends[0] if appends else R.loop)
+              (short(appends[0][0], 60) if appends else 'no append found'), route, appends[0][0] if appends else R.loop)
     seg = [g for g in glues if id(g[0]) in in_loop]
     is_seg = lambda v: v is R.fc or (isinstance(v, ast.Name) and _single_def(cp, v.id) is R.fc)
     ok = len(seg) == 1 and len(glues) == 1 and is_seg(seg[0][1]) and implies_present(facts(seg[0][0]), mtext)
